@@ -517,7 +517,10 @@ TENTHS = ["0.0", "0.1", "0.2", "0.3", "0.4", "0.5", "0.6", "0.7", "0.8", "0.9", 
 def findall_cases(draw, nested=False, max_prob_statements=4):
     """Programs for C19.  Base predicates b0, b1 (arity 1-2) get deterministic facts, probabilistic facts (with
     duplicates of the same fact) and annotated disjunctions; derived predicates d0.. get rules (several proofs per
-    solution, negation on base predicates, probabilistic rules / ADs with bodies); q0.. wrap findall / all."""
+    solution, stratified negation on base predicates and on derived predicates defined earlier, if-then-else pairs
+    'h :- c, t.  h :- e, \\+ c.' that use one atom with both polarities, probabilistic rules / ADs with bodies); q0..
+    wrap findall / all over calls, conjunctions, disjunctions, call + negation (preferably of a derived predicate),
+    call + \\=.  Negative literals only use variables bound by an earlier positive literal; no recursion."""
     consts = [["a", "a"], ["a", "b"], ["a", "c"]][:draw(st.integers(2, 3))]
     terms = consts + [["i", 1]] if draw(st.integers(0, 3)) == 0 else consts
     prog = []
@@ -537,7 +540,7 @@ def findall_cases(draw, nested=False, max_prob_statements=4):
             out.append(TENTHS[k])
         return out
 
-    nbase = draw(st.integers(1, 2))
+    nbase = draw(st.sampled_from([1, 2, 2]))
     base = []
     for i in range(nbase):
         arity = draw(st.sampled_from([1, 1, 2]))
@@ -558,13 +561,51 @@ def findall_cases(draw, nested=False, max_prob_statements=4):
                 ps = ad_probs(nh)
                 prog.append(["ad", [[p, [name, [gterm() for _ in range(arity)]]] for p in ps], None])
         base.append((name, arity))
-    nder = draw(st.integers(0, 2))
+    nder = draw(st.sampled_from([0, 1, 1, 2, 2]))
     preds = list(base)
+    ite_heads = {}  # derived predicate -> head arguments of its if-then-else pair
+
+    def neg_literal(lower_preds, vars_bound):
+        """A negative literal on a predicate defined earlier, using only bound variables; prefers derived predicates,
+        in particular the head instances of if-then-else pairs (their formula contains one atom with both
+        polarities)."""
+        ite = [q for q in lower_preds if q[0] in ite_heads]
+        derived = [q for q in lower_preds if q[0].startswith("d")]
+        nv = draw(st.sampled_from(vars_bound)) if vars_bound else None
+        if ite and draw(st.integers(0, 3)) != 0:
+            q = draw(st.sampled_from(ite))
+            args = []
+            for t in ite_heads[q[0]]:
+                if t[0] == "v":
+                    args.append(["v", nv] if nv is not None and draw(st.integers(0, 2)) != 0 else gterm())
+                else:
+                    args.append(t)
+            return ["not", ["call", q[0], args]]
+        q = draw(st.sampled_from(derived if derived and draw(st.booleans()) else lower_preds))
+        use_var = nv is not None and draw(st.integers(0, 3)) != 0
+        return ["not", ["call", q[0], [["v", nv] if use_var and k == 0 else gterm() for k in range(q[1])]]]
+
     for i in range(nder):
         arity = draw(st.sampled_from([1, 1, 2]))
         name = "d%d" % i
         ncl = draw(st.integers(1, 3))
         lower = list(preds)
+        if draw(st.integers(0, 2)) != 0:
+            # if-then-else pair: the same atom is used positively in one clause and negatively in the other, both
+            # clauses derive the same head (head :- cond, then.  head :- else, \+ cond.)
+            t = ["v", "V1"] if draw(st.integers(0, 2)) != 0 else gterm()
+
+            def ite_lit(q):
+                return ["call", q[0], [t] + [gterm() for _ in range(q[1] - 1)]]
+
+            cond = ite_lit(draw(st.sampled_from(base if draw(st.integers(0, 3)) != 0 else lower)))
+            then_l = ite_lit(draw(st.sampled_from(lower)))
+            else_l = ite_lit(draw(st.sampled_from(lower)))
+            head = [name, [t] + [gterm() for _ in range(arity - 1)]]
+            prog.append(["cl", head, ["and", [cond, then_l]]])
+            prog.append(["cl", head, ["and", [else_l, ["not", cond]]]])
+            ite_heads[name] = head[1]
+            ncl = max(0, ncl - 2)
         for _ in range(ncl):
             names = _Names()
             kind = draw(st.sampled_from(["rule", "rule", "rule", "prule", "adrule", "fact"]))
@@ -578,9 +619,9 @@ def findall_cases(draw, nested=False, max_prob_statements=4):
             bound = []
             for li in range(nlit):
                 p = draw(st.sampled_from(lower))
-                if li > 0 and bound and draw(st.integers(0, 3)) == 0:
-                    body.append(["not", ["call", p[0], [["v", draw(st.sampled_from(bound))] if draw(st.booleans())
-                                                         else gterm() for _ in range(p[1])]]])
+                if li > 0 and bound and draw(st.integers(0, 2)) == 0:
+                    # stratified negation: on base predicates and on derived predicates defined earlier
+                    body.append(neg_literal(lower, bound))
                     continue
                 args = []
                 used = []
@@ -647,17 +688,15 @@ def findall_cases(draw, nested=False, max_prob_statements=4):
 
         args, new = qargs(p, [])
         goals = [["call", p[0], args]]
-        shape = draw(st.sampled_from([0, 1, 2, 3, 4, 5, 5, 5, 5, 5, 6, 7] if nested else
-                                     [0, 1, 2, 3, 4, 6, 6, 6, 7, 7, 7, 7]))
+        shape = draw(st.sampled_from([0, 1, 2, 2, 3, 4, 5, 5, 5, 5, 5, 6, 7] if nested else
+                                     [0, 1, 2, 2, 2, 2, 3, 4, 6, 6, 7, 7, 7, 7]))
         if shape <= 1:
             p2 = draw(st.sampled_from(preds))
             a2, n2 = qargs(p2, new)
             goals.append(["call", p2[0], a2])
             new = new + n2
         elif shape == 2 and new:
-            p2 = draw(st.sampled_from(preds))
-            goals.append(["not", ["call", p2[0], [["v", draw(st.sampled_from(new))] if draw(st.booleans())
-                                                   else gterm() for _ in range(p2[1])]]])
+            goals.append(neg_literal(preds, new))
         elif shape == 3 and new:
             goals.append(["\\=", ["v", draw(st.sampled_from(new))], gterm()])
         goal = goals[0] if len(goals) == 1 else ["and", goals]
